@@ -233,6 +233,18 @@ def run_r4(ctx, rule):
         rule.check(bool(aggs) and all(rv["variant"] == "Ok" for rv in aggs), "Write::%s/never-fails" % m, "Write::%s always returns Ok" % m, fw.loc())
         calls = [norm(util.cname(t)) for bb, t in fw.calls()]
         rule.check(DW + "write_all_defer_err" in calls, "Write::%s/delegates" % m, "Write::%s buffers through write_all_defer_err" % m, fw.loc())
+        # ... the *whole* input: the integer slow path formats through itoap::write, which calls Write::write once and
+        # does not look at the count, so a short write would silently drop digits
+        sw = sym(fw)
+        whole = [bb for bb, t in fw.calls() if norm(util.cname(t)) == DW + "write_all_defer_err" and strip_bb(sw.operand(t["args"][1])) == ("l", 2)]
+        rule.check(bool(whole) and len(whole) == len([1 for c2 in calls if c2 == DW + "write_all_defer_err"]), "Write::%s/whole-input" % m, "Write::%s hands its whole input slice to write_all_defer_err (never a short write)" % m, fw.loc())
+        if m == "write":
+            okc = False
+            for rv in aggs:
+                e = sw.operand(rv["ops"][0]) if rv["ops"] else None
+                if e and e[0] == "call" and norm(e[2]).endswith("len") and strip_bb(e[3][0]) == ("l", 2):
+                    okc = True
+            rule.check(okc, "Write::write/count", "Write::write reports the length of its whole input as written", fw.loc())
 
 
 def run_r5(ctx, rule):
